@@ -210,6 +210,10 @@ __CPROVER_ensures(xv_est_n == __CPROVER_old(xv_est_n) + 1 && xv_est_fd == fd && 
 #define TRK_FDS_OK(t) (TRK_FD_OK((t)->fd4) && TRK_FD_OK((t)->fd6) && ((t)->fd4 < 0 || (t)->fd4 != (t)->fd6))
 #define TRK_IDX_OK(t) ((t)->ip_idx >= -1 && (t)->ip_idx < ((t)->num_remote_ips > 0 ? (t)->num_remote_ips : 0))
 #define TRK_LOCAL_OK(t) ((t)->local_ip == NULL || FAM_OK((t)->local_ip->family))
+/* the local address a track binds to is the track's OWN copy (fix 987216f: it used to be a pointer into begin_connect()'s stack frame, read by every attempt
+ * begun after begin_connect() had returned): NULL when no local address was given, otherwise &t->local_ip_data holding the caller's family and address bytes */
+#define TRK_LOCAL_OWNED(t, lip) ((lip) == NULL ? (t)->local_ip == NULL : ((t)->local_ip == &(t)->local_ip_data && (t)->local_ip_data.family == (lip)->family && \
+                                 (t)->local_ip_data.addr.ip6[xv_mc & 15] == (lip)->addr.ip6[xv_mc & 15]))
 #define TRK_SUPP(t, fam) ((fam) == AF_INET ? (t)->fd4 >= 0 : (t)->fd6 >= 0)
 #define TRK_FAM(t, i) ((t)->remote_ips[i].family)
 #define TRK_CUR_OK(t) ((t)->ip_idx >= 0 && TRK_SUPP(t, TRK_FAM(t, (t)->ip_idx)))
@@ -225,7 +229,12 @@ __CPROVER_ensures(xv_est_n == __CPROVER_old(xv_est_n) + 1 && xv_est_fd == fd && 
 #define TRK_FRESH(t) (__CPROVER_is_fresh(t, sizeof(struct track)))
 #define TRK_IPS_FRESH(t) (__CPROVER_is_fresh((t)->remote_ips, TRK_IPS_BYTES(t)))
 #define TRK_IPS_FREEABLE(t) (__CPROVER_is_fresh((t)->remote_ips, 1))
+/* (where this precondition is CHECKED - at calls replaced by a contract - the address is the track's own copy; where it is ASSUMED see the note at tconnect_connect) */
+#ifdef XV_TRK_OWNED_AT_CALLS     /* job dnstc.track_create: the only job where a track made by the real track_create reaches a replaced callee */
+#define TRK_LOCAL_FRESH(t) ((t)->local_ip == NULL || (t)->local_ip == &(t)->local_ip_data || __CPROVER_is_fresh((t)->local_ip, sizeof(struct xcm_addr_ip)))
+#else
 #define TRK_LOCAL_FRESH(t) ((t)->local_ip == NULL || __CPROVER_is_fresh((t)->local_ip, sizeof(struct xcm_addr_ip)))
+#endif
 #define TRK_REQUIRES_SHAPE(t) TRK_REQUIRES_SHAPE_V(t, xv_q)
 #define TRK_REQUIRES_SHAPE_V(t, v) (TRK_FAMS_OK_V(t, v) && TRK_FDS_OK(t) && TRK_IDX_OK(t) && TRK_LOCAL_OK(t) && (t)->timer_mgr != NULL && (t)->xpoll != NULL && \
                                xv_fk >= 0 && xv_fk < XV_NFD && (t)->tcp_connect_timeout == (t)->tcp_connect_timeout /* not NaN */)
@@ -538,8 +547,10 @@ __CPROVER_requires(TRK_FD_OK(fd4) && TRK_FD_OK(fd6) && (fd4 >= 0 || fd6 >= 0) &&
 __CPROVER_requires(tcp_connect_timeout == tcp_connect_timeout && initial_delay == initial_delay /* neither is NaN */)
 __CPROVER_assigns(TCN_GHOST_ASSIGNS)
 __CPROVER_ensures(__CPROVER_is_fresh(__CPROVER_return_value, sizeof(struct track)))
-/* PO[C13] track_create.remembers_what_it_was_given: descriptors, local address (borrowed), scope, timeout, options SNAPSHOT, port, delay, timer manager, xpoll */
-__CPROVER_ensures(__CPROVER_return_value->fd4 == fd4 && __CPROVER_return_value->fd6 == fd6 && __CPROVER_return_value->local_ip == local_ip && \
+/* PO[C13,C11] track_create.keeps_its_own_copy_of_the_local_address: nothing of the caller's frame is referenced after the call */
+__CPROVER_ensures(TRK_LOCAL_OWNED(__CPROVER_return_value, local_ip))
+/* PO[C13] track_create.remembers_what_it_was_given: descriptors, scope, timeout, options SNAPSHOT, port, delay, timer manager, xpoll */
+__CPROVER_ensures(__CPROVER_return_value->fd4 == fd4 && __CPROVER_return_value->fd6 == fd6 && \
                   __CPROVER_return_value->local_port == local_port && __CPROVER_return_value->scope == scope && __CPROVER_return_value->tcp_connect_timeout == tcp_connect_timeout && \
                   OPTS_EQ(&__CPROVER_return_value->tcp_opts, tcp_opts) && __CPROVER_return_value->remote_port == remote_port && \
                   __CPROVER_return_value->timer_mgr == timer_mgr && __CPROVER_return_value->xpoll == xpoll && __CPROVER_return_value->log_ref == log_ref)
@@ -626,7 +637,7 @@ __CPROVER_ensures(tconnect == NULL ==> (XV_SAME(xv_open_cnt) && XV_SAME(xv_close
 #define HAPPY_DELAY (200e-3)      /* HAPPY_EYEBALLS_INITIAL_IPV4_DELAY */
 #define TC_EXISTS_FAM(ips, n, fam, v) __CPROVER_exists { int v; (0 <= v && v < TRK_MAX_IPS) && v < (int)(n) && (ips)[v].family == (fam) }
 /* the track was created from THESE arguments (everything but descriptors, list length and delay, which differ per algorithm) */
-#define TC_TRACK_ARGS(t) ((t)->local_ip == local_ip && (t)->local_port == local_port && (t)->tcp_connect_timeout == tcp_connect_timeout && OPTS_EQ(&(t)->tcp_opts, tcp_opts) && \
+#define TC_TRACK_ARGS(t) (TRK_LOCAL_OWNED(t, local_ip) && (t)->local_port == local_port && (t)->tcp_connect_timeout == tcp_connect_timeout && OPTS_EQ(&(t)->tcp_opts, tcp_opts) && \
                           (t)->remote_port == remote_port && (t)->timer_mgr == tconnect->timer_mgr && (t)->xpoll == tconnect->xpoll && (t)->log_ref == tconnect->log_ref && \
                           (xv_mc < sizeof(struct xcm_addr_ip) * (t)->num_remote_ips ==> TCR_U8((t)->remote_ips)[xv_mc] == TCR_U8(remote_ips)[xv_mc]))
 #define TC_SCOPE_REFUSED (scope >= 0 && num_remote_ips == 1 && remote_ips[0].family == AF_INET)
@@ -693,9 +704,9 @@ __CPROVER_requires(TC_N(tconnect) >= 1 ==> TRK_LOCAL_FRESH(TC_T(tconnect, 0)))
 __CPROVER_requires(TC_N(tconnect) >= 1 ==> TC_TRACK_READY(tconnect, TC_T(tconnect, 0), xv_qa))
 __CPROVER_requires(TC_N(tconnect) >= 2 ==> (TRK_FRESH(TC_T(tconnect, 1)) && TRK_NUM_OK(TC_T(tconnect, 1))))
 __CPROVER_requires(TC_N(tconnect) >= 2 ==> TRK_IPS_FRESH(TC_T(tconnect, 1)))
-/* (the local address is borrowed from the caller: in the library both tracks of a happy-eyeballs pair point at the SAME object.
- * CBMC cannot dereference a pointer field that is merely assumed equal to another pointer (HOWTO, trap a), so the pair is given
- * two objects here.  Nothing under proof writes through local_ip (const) or compares the two pointers: same behaviour.) */
+/* (the local address of a track is its own copy, t->local_ip == &t->local_ip_data (enforced on track_create).  CBMC cannot dereference a pointer field
+ * that is merely assumed equal to another address (HOWTO, trap a), so in PRECONDITIONS the address is given an object of its own (TRK_LOCAL_FRESH).
+ * Nothing under proof writes through local_ip (const) or compares the pointer: same behaviour.) */
 __CPROVER_requires(TC_N(tconnect) >= 2 ==> TRK_LOCAL_FRESH(TC_T(tconnect, 1)))
 __CPROVER_requires(TC_N(tconnect) >= 2 ==> (TC_TRACK_READY(tconnect, TC_T(tconnect, 1), xv_qb) && TC_T(tconnect, 0)->fd6 == -1 && TC_T(tconnect, 1)->fd4 == -1))
 __CPROVER_requires(TRK_GHOST_OK_S(32) && xv_regs >= 2 && xv_timers >= 2 && xv_fk >= 0 && xv_fk < XV_NFD)
